@@ -9,6 +9,8 @@ import (
 	"sync/atomic"
 	"testing"
 	"time"
+	"context"
+	"strings"
 )
 
 type unreachNoticeArg struct {
@@ -52,6 +54,27 @@ func unreachApply(op string, raw json.RawMessage) interface{} {
 	}
 	if op == "churn" {
 		return unreachChurn(a)
+	}
+	if op == "localdial" {
+		// a stream dial to a service of this very node that nobody listens on: the sender is local, so the "service
+		// unknown" answer is the error returned by the send itself — the dial has to fail at once with it
+		me := string(verifUnhex(a.Me))
+		s, cancel := verifQuietNode(me, 30)
+		defer cancel()
+		target := me
+		if len(a.Sockets) > 0 {
+			target = string(verifUnhex(a.Sockets[0])) // the node name as written: own ID or a spelling of localhost
+		}
+		ctx, c := context.WithTimeout(context.Background(), 5*time.Second)
+		defer c()
+		t0 := time.Now()
+		conn, err := s.DialContext(ctx, target, "nosuchsv", nil)
+		el := time.Since(t0)
+		if conn != nil {
+			_ = conn.Close()
+		}
+		return map[string]interface{}{"failed": err != nil, "fast": el < 2*time.Second,
+			"unknown": err != nil && strings.Contains(err.Error(), ProblemServiceUnknown)}
 	}
 	if op != "deliver" {
 		panic("verif: unknown op " + op)
@@ -298,7 +321,14 @@ func unreachGen(v *verifRun) {
 	}
 }
 
+func unreachGenAll(v *verifRun) {
+	unreachGen(v)
+	for _, target := range []string{"me", "localhost"} {
+		v.do(unreachApply, "localdial", unreachArgs{Me: verifHex([]byte("me")), Sockets: []string{verifHex([]byte(target))}})
+	}
+}
+
 func TestVerifUnreach(t *testing.T) {
 	v := verifOpen(t, "unreach")
-	v.run(unreachApply, unreachGen)
+	v.run(unreachApply, unreachGenAll)
 }
